@@ -85,6 +85,7 @@ def dtype_cls(d, default="f"):
 # uninterpreted real functions (A1: reals)
 _REAL = z3.RealSort()
 NORM2 = z3.Function("norm2", _REAL, _REAL, _REAL)
+FMOD = z3.Function("uf_fmod", _REAL, _REAL, _REAL)
 UF = {n: z3.Function("uf_" + n, _REAL, _REAL) for n in ("exp", "log", "tanh", "sqrt", "cos", "sin", "sigmoid")}
 
 
@@ -253,7 +254,16 @@ def scalar_binop(op, a, b, wf=True):
         return x / y
     if op == "mod":
         if d == "f":
-            raise Unsupported("real mod")
+            # real remainder: an uninterpreted function with the facts of the positive-divisor case as ground instances
+            # (0 <= r < y; whole-number operands give a whole-number remainder); nothing is said for y < 0
+            xr, yr = zreal(x), zreal(y)
+            if wf:
+                cur().wf("mod-nonzero-divisor", yr != 0)
+            r = FMOD(xr, yr)
+            isint = lambda v: z3.ToReal(z3.ToInt(v)) == v
+            cur().assume(z3.Implies(yr > 0, z3.And(r >= 0, r < yr)))
+            cur().assume(z3.Implies(z3.And(isint(xr), isint(yr)), isint(r)))
+            return r
         if wf and not (isinstance(b, int) and b > 0):
             cur().wf("mod-positive-divisor", y > 0)
         return x % y
@@ -496,6 +506,16 @@ def getitem(t: SymTensor, index):
         index = (index,)
     # a one-element python list index [k] selects like the slice k:k+1 (keeps the dim)
     index = tuple(slice(i[0], i[0] + 1) if isinstance(i, list) and len(i) == 1 and isinstance(i[0], int) and i[0] >= 0 else i for i in index)
+    if any(isinstance(i, list) and len(i) == 1 and is_z3(i[0]) for i in index):
+        # the same with a symbolic position (e.g. the loop variable of `for i in range(n)`): non-negative by a WF obligation
+        conv = []
+        for i in index:
+            if isinstance(i, list) and len(i) == 1 and is_z3(i[0]):
+                ctx.wf("list-index-nonnegative", zint(i[0]) >= 0)
+                conv.append(slice(i[0], simp_add(i[0], 1)))
+            else:
+                conv.append(i)
+        index = tuple(conv)
     if any(isinstance(i, list) for i in index):
         # a python list of integers indexes like an integer tensor
         conv = []
@@ -809,7 +829,21 @@ def setitem(t: SymTensor, index, value):
         t.write(lambda idx, old: ite(ms(idx[:mr]), _cast_like(v, t.dtype), old))
         return
     full_ = lambda i: isinstance(i, slice) and i.start is None and i.stop is None and i.step is None
+    if any(i is Ellipsis for i in index) and sum(1 for i in index if i is Ellipsis) == 1:
+        e_ = list(index).index(Ellipsis)
+        index = tuple(index[:e_]) + (slice(None),) * (t.rank - (len(index) - 1)) + tuple(index[e_ + 1:])
     tpos = [k for k, i in enumerate(index) if T(i)]
+    is_ar = lambda i: T(i) and i.rank == 1 and i.prov and i.prov[0] == "arange" and isinstance(i.prov[1], int) and i.prov[1] == 0
+    if (len(tpos) == 2 and tpos == [t.rank - 2, t.rank - 1] and len(index) == t.rank and all(full_(i) for i in index[:-2])
+            and is_ar(index[-2]) and is_ar(index[-1]) and (not T(value) or value.rank == 0)):
+        # t[..., arange(n), arange(n)] = scalar: the first n diagonal entries of the last two dims
+        n1, n2 = index[-2].shape[0], index[-1].shape[0]
+        if not ctx.same(n1, n2):
+            ctx.wf("diag-index-lengths", zint(n1) == zint(n2))
+        ctx.wf("diag-index-in-range", AND(zint(n1) <= zint(t.shape[-2]), zint(n1) <= zint(t.shape[-1])))
+        v = value.at() if T(value) else value
+        t.write(lambda J, old: ite(AND(eqv(J[-2], J[-1]), zint(J[-1]) < zint(n1)), _cast_like(v, t.dtype), old))
+        return
     if (len(tpos) == 1 and all(full_(i) for k, i in enumerate(index) if k != tpos[0]) and index[tpos[0]].dtype == "i" and index[tpos[0]].rank <= 1
             and (index[tpos[0]].rank == 0 or isinstance(index[tpos[0]].shape[0], int)) and (not T(value) or value.rank == 0)):
         # t[:, idx, ...] = scalar with a short index tensor: the whole slices at the listed positions are overwritten
